@@ -875,6 +875,82 @@ class RunInvocation(Bounded):
             shutil.rmtree(top, ignore_errors=True)
 
 
+class RegenerateElsewhere(Bounded):
+    """A project whose tools were found at configure time through variables and a PATH entry of the configuring shell
+    (CC / CXX / AR naming wrappers that live in a directory only that shell had on its PATH) is regenerated later
+    from a shell with another PATH, other tool variables and another working directory: the build files are the ones
+    the configure run wrote (the saved configuration is the only input)."""
+    target = 'bfg9000/driver.py::regenerate'
+    properties = ('C09',)
+    reason = 'tool detection over two ambient environments and two processes: runtime contract on the real driver'
+    native_chunk = 1
+
+    def native_inputs(self, case, alphabet, maxlen, rng, extra=0):
+        for backend in ('make', 'ninja'):
+            for later in ('path-without-the-tools', 'other-tool-variables'):
+                yield {'backend': backend, 'later': later}
+
+    def native_check(self, case, raw):
+        import os, shutil, subprocess, tempfile
+        from pyvc.interp import REPO
+        top = tempfile.mkdtemp(prefix='pyvc_else_')
+        try:
+            src, b, tools = top + '/src', top + '/b', top + '/my tools'
+
+            def w(fp, text, mode=None):
+                os.makedirs(os.path.dirname(fp), exist_ok=True)
+                with open(fp, 'w') as f:
+                    f.write(text)
+                if mode:
+                    os.chmod(fp, mode)
+            w(src + '/build.bfg', "project('e')\npch = precompiled_header(file='pre.h')\nlib = static_library('l', files=['l.c'])\n"
+                                  "executable('prog', files=['main.c', 'x.cpp'], pch=pch, libs=[lib])\n")
+            w(src + '/pre.h', '#define V 0\n')
+            w(src + '/l.c', 'int l(void) { return 0; }\n')
+            w(src + '/main.c', 'int l(void); int x(void); int main(void) { return l() + x() + V; }\n')
+            w(src + '/x.cpp', 'extern "C" int x(void) { return 0; }\n')
+            for name, real in (('mycc', '/usr/bin/cc'), ('mycxx', '/usr/bin/c++'), ('myar', '/usr/bin/ar')):
+                if not os.path.exists(real):
+                    return None
+                w(tools + '/' + name, '#!/bin/sh\nexec %s "$@"\n' % real, 0o755)
+            lp = top + '/bin/bfg9000'
+            w(lp, "#!/bin/sh\nPYTHONPATH=%s exec /venv/bin/python -c 'import sys; sys.argv[0] = \"%s\"; "
+                  "from bfg9000.driver import main; sys.exit(main())' \"$@\"\n" % (REPO, lp), 0o755)
+            w(top + '/bin/ninja', '#!/bin/sh\necho 1.10.1\n', 0o755)
+            base = {'PATH': top + '/bin:/venv/bin:/usr/bin:/bin', 'HOME': '/root'}
+            conf_env = dict(base, PATH=tools + ':' + base['PATH'], CC='mycc', CXX='mycxx', AR='myar')
+            r = subprocess.run([lp, 'configure-into', src, b, '--backend=' + raw['backend'], '--no-resolve-packages'],
+                               env=conf_env, capture_output=True, text=True, timeout=120)
+            if r.returncode != 0:
+                return self.fail(case, raw, 'configure_succeeds', stderr=r.stderr[-300:])
+            names = ['Makefile' if raw['backend'] == 'make' else 'build.ninja', 'compile_commands.json']
+
+            def snap():
+                out = {}
+                for n in names:
+                    with open(b + '/' + n) as f:
+                        out[n] = f.read()
+                return out
+            first = snap()
+            if 'mycc' not in first[names[0]]:
+                return self.fail(case, raw, 'configure_uses_the_named_tools')
+            later_env = dict(base) if raw['later'] == 'path-without-the-tools' else \
+                dict(base, CC='/usr/bin/false', CXX='/usr/bin/false', AR='/usr/bin/false', CFLAGS='-DLEAK=1')
+            p = subprocess.run([lp, 'regenerate', b], env=later_env, capture_output=True, text=True, timeout=120, cwd='/')
+            if p.returncode != 0:
+                return self.fail(case, raw, 'regeneration_succeeds', stderr=p.stderr[-300:])
+            second = snap()
+            for n in names:
+                if first[n] != second[n]:
+                    import difflib
+                    d = list(difflib.unified_diff(first[n].splitlines(), second[n].splitlines(), lineterm='', n=0))
+                    return self.fail(case, raw, 'regenerated_build_files_are_those_of_the_configure_run', file=n, diff=d[:10],
+                                     warnings=p.stderr[-300:])
+            return True
+        finally:
+            shutil.rmtree(top, ignore_errors=True)
+
+
 def registry():
     return [SetItem(), DelItem(), Clear(), Pop(), PopItem(), SetDefault(), Update(), IOr(), Reset(), Init(), FromJson(),
-            LazyChanges(), LoadToolchain(), EnvVarDictOps(), EnvSaveLoad(), ToolchainReplay(), RunInvocation()]
+            LazyChanges(), LoadToolchain(), EnvVarDictOps(), EnvSaveLoad(), ToolchainReplay(), RunInvocation(), RegenerateElsewhere()]
